@@ -560,6 +560,8 @@ def process(ctx, n_lik, n_tr, n_ratio, n_chain):
         c['kind'] = kinds[k % 4]
         if k % 4 == 0:
             c['prior'] = rng.choice(['gamma', 'norm', 'beta'])       # robust likelihood with a NON-FLAT prior
+        if k % 4 == 1:
+            c.update(prior=rng.choice(['uniform', 'beta']), transform=None, sigma=1.5)   # many proposals outside the support
         chain_case(ctx, rng, reqs, meta, case=c)
     drive(ctx, reqs, meta)
 
